@@ -147,6 +147,7 @@ bool StepScript(InterpreterEnv& env)
         env.vfExec_history.push_back(env.vfExec);
         env.pbegincodehash_history.push_back(env.pbegincodehash);
         env.execdata_history.push_back(env.execdata);
+        env.opcode_pos_history.push_back(env.opcode_pos);
 
         if (!StepScript(env, pc)) {
             // undo above pushes
@@ -157,11 +158,14 @@ bool StepScript(InterpreterEnv& env)
             env.vfExec_history.pop_back();
             env.pbegincodehash_history.pop_back();
             env.execdata_history.pop_back();
+            env.opcode_pos_history.pop_back();
             return false;
         }
 
         // Update environment
         env.curr_op_seq++;
+        // position of the next opcode within the script (BIP342 code separator position), as in EvalScript
+        ++env.opcode_pos;
         return true;
     }
 
@@ -201,6 +205,7 @@ bool StepScript(InterpreterEnv& env)
             pend = script.end();
             env.curr_op_seq++;
             env.nOpCount = 0; // reset to avoid hitting limit prematurely!
+            env.opcode_pos = 0;
             return true;
         }
         return set_error(serror, SCRIPT_ERR_BAD_OPCODE);
@@ -212,6 +217,7 @@ bool StepScript(InterpreterEnv& env)
         pc = env.pbegincodehash = script.begin();
         pend = script.end();
         env.curr_op_seq++;
+        env.opcode_pos = 0;
 
         // figure out if p2sh
         env.is_p2sh = (
@@ -254,6 +260,7 @@ bool RewindScript(InterpreterEnv& env)
     env.vfExec = env.vfExec_history.back();
     env.pbegincodehash = env.pbegincodehash_history.back();
     env.execdata = env.execdata_history.back();
+    env.opcode_pos = env.opcode_pos_history.back();
     // Pop
     env.stack_history.pop_back();
     env.altstack_history.pop_back();
@@ -262,6 +269,7 @@ bool RewindScript(InterpreterEnv& env)
     env.vfExec_history.pop_back();
     env.pbegincodehash_history.pop_back();
     env.execdata_history.pop_back();
+    env.opcode_pos_history.pop_back();
     return true;
 }
 
